@@ -2,6 +2,7 @@ import Driver.Util
 import CtyModel.Refine
 import CtyModel.RefineIdeal
 import CtyModel.RefineWith
+import CtyModel.RefineTextFree
 open CtyModel
 open CtyModel.Refine
 
@@ -16,6 +17,8 @@ open CtyModel.Refine
   inputs whose numbers are all integers or infinities, where `C05.run_code_eq_exact` proves the three oracles agree,
   and (slice d05b) for inputs on which the real `Equals` answers as `Cmp` for every pair of numbers
   (`C05.refine_code_eq_exact_textfree`)
+* `rfn.textfree <value> (<call>*)` → `0|1`: the decidable side condition `D05b.textFree` of the bridge theorems (the
+  harness sends the same condition evaluated on the real code)
 * `rfn.klen <value>` → `Length()` of a known collection as the range of possible lengths `ok <least> <most>`
   (`knownLength`; slice d05b)
 * `rfn.with <value> ((<same> (<call>*))*)` → `v.RefineWith(refiners...)`: each refiner applies its calls and returns the
@@ -125,6 +128,10 @@ def handleRefine : Handler := fun op args =>
   | "rfn.nn", [v] => do
     let v ← Value.ofSexp v
     pure (rfnValRes (@D05.refineNotNull textOracle v))
+  | "rfn.textfree", [v, .list cs] => do
+    let v ← Value.ofSexp v
+    let cs ← cs.mapM decCall
+    pure (toString (Sexp.encBool (D05b.textFree v cs)))
   | "rfn.klen", [v] => do
     let v ← Value.ofSexp v
     pure (match knownLength v.unmark with
